@@ -11,12 +11,21 @@ BYTE_SUBS = [0x00, 0x7f, 0x80, 0xff, 0xc1, 0xc2, 0xc3, 0xc4, 0x30, 0x31,
 
 GENERIC_KINDS = ['cut', 'flip', 'flip', 'insert', 'delete', 'dup-range',
                  'splice', 'garbage', 'byte-sub', 'byte-sub', 'first64',
-                 'first64', 'append', 'byte-small', 'block-repeat']
+                 'first64', 'append', 'byte-small', 'block-repeat',
+                 'lp-replace']
+
+# Contents that are small as octets and huge as numbers: character-encoded
+# REALs (ISO 6093 NR1-NR3 behind their form octet) with long exponents or
+# digit runs, plain digit strings.
+TOKENS = [b'\x03' + b'1.E999999999', b'\x03' + b'1.E-999999999',
+          b'\x03' + b'9.9E99999999', b'\x02' + b'1.' + b'0' * 12,
+          b'\x01' + b'9' * 14, b'\x03' + b'-1.E+999999999',
+          b'999999999999', b'1E999999999', b'\x03' + b'1,E999999999']
 BER_KINDS = ['retag', 'len+1', 'len-1', 'len0', 'len-indef', 'len-huge',
              'drop-node', 'dup-node', 'swap-nodes', 'inject-eoc',
              'len-long-form', 'wrap-constructed', 'retag-indef',
              'retag-indef', 'node-drop-fix', 'node-drop-fix', 'node-dup-fix',
-             'node-swap-fix']
+             'node-swap-fix', 'node-token-fix']
 TEXT_KINDS = ['text-delete', 'text-dup', 'text-nest', 'text-swapcase',
               'text-number', 'tree-dup', 'tree-dup', 'tree-drop',
               'tree-swap', 'tree-move']
@@ -206,6 +215,18 @@ def mutate(data, fault, other=b''):
                                     data[pos] & 0xf0, data[pos] | 0x0f])
 
         return bytes(data)
+    elif kind == 'lp-replace':
+        # A length-prefixed field (one octet n <= 24 followed by n octets)
+        # is replaced by [len(token)] + token.
+        spots = [i for i in range(n) if data[i] <= 24
+                 and i + 1 + data[i] <= n]
+
+        if spots:
+            pos = rng.choice(spots)
+            token = rng.choice(TOKENS)
+            data[pos:pos + 1 + data[pos]] = bytes([len(token)]) + token
+
+        return bytes(data)
     elif kind == 'block-repeat':
         # Self-similar growth: a short block is repeated right behind
         # itself, optionally with one of its octets moved by one (nested
@@ -374,7 +395,15 @@ def mutate_ber_consistent(data, kind, rng):
     items = rng.choice(lists)
     index = rng.randrange(len(items))
 
-    if kind == 'node-drop-fix':
+    if kind == 'node-token-fix':
+        # The contents of a primitive element become a token (enclosing
+        # lengths recomputed).
+        primitive = [item for items_ in lists for item in items_
+                     if not isinstance(item[1], list)]
+
+        if primitive:
+            rng.choice(primitive)[1] = rng.choice(TOKENS)
+    elif kind == 'node-drop-fix':
         del items[index]
     elif kind == 'node-dup-fix':
         items.insert(index, items[index])
